@@ -382,7 +382,7 @@ def soakAll (c : SCfg) (evs : List SEv) : Bool :=
 
 def soakVerdict (c : SCfg) (evs : List SEv) : List String :=
   if soakAll c evs then ["prop soak=ok"]
-  else if !soakOnce evs then [s!"prop soak=FAIL sig=C02/soak/handed-twice handed={handedOf evs}"]
+  else if !soakOnce evs then [s!"prop soak=FAIL sig=C02/soak/handed-twice ids handed more than once: {((handedOf evs).filter (fun id => ((handedOf evs).filter (· == id)).length > 1)).eraseDups} (of {(handedOf evs).length} hand-offs)"]
   else if !soakOnlyAccepted c evs then
     [s!"prop soak=FAIL sig=C02/soak/refused-or-unknown-handed {(handedOf evs).filter (fun id => !((retsOf evs).any (fun r => r.1 == id && mayBeQueued c r)))}"]
   else if !soakAllHanded c evs then
